@@ -28,7 +28,7 @@ Lookup(s, m) == LET r == SelectSeq(s, LAMBDA x : x.m = m) IN IF r = <<>> THEN [m
 TInit ==
     /\ l = 1 /\ tg = NoTg
     /\ Init
-    /\ conf = [useLogger |-> TRUE, recheck |-> TRUE, safeEnv |-> TRUE, locks |-> TRUE, eager |-> TRUE, rt |-> TRUE]
+    /\ conf = [useLogger |-> TRUE, recheck |-> TRUE, safeEnv |-> TRUE, locks |-> TRUE, eager |-> TRUE, rt |-> TRUE, disc |-> TRUE]
     /\ todo = [t \in Producers |-> <<>>]
     /\ script = [s \in Stoppers |-> <<>>]
 
@@ -39,7 +39,7 @@ TReset ==
     /\ conf' = ev.conf
     /\ lm' = [owner |-> NoOne, depth |-> 0] /\ hm' = NoOne
     /\ tptr' = FALSE /\ wptr' = FALSE /\ thr' = "none" /\ wobj' = "none"
-    /\ queue' = <<>> /\ pending' = 0 /\ app' = ev.app /\ hooked' = FALSE
+    /\ queue' = <<>> /\ pending' = 0 /\ app' = ev.app /\ hooked' = FALSE /\ hobj' = "alive" /\ stale' = 0
     /\ pc' = [t \in Threads |-> IF t = W THEN "gone" ELSE "idle"]
     /\ cur' = [t \in Threads |-> NoMsg]
     /\ todo' = [t \in Producers |-> IF t \in DOMAIN ev.todo THEN MsgSeq(ev.todo[t]) ELSE <<>>]
@@ -70,7 +70,7 @@ TCallEnd ==
        /\ cur' = [cur EXCEPT ![t] = NoMsg]
        /\ ghost' = [ghost EXCEPT !.returned = @ \cup {cur[t]}]
        /\ Goto(t, "idle")
-       /\ UNCHANGED <<conf, tptr, wptr, thr, wobj, queue, pending, app, hooked, script, inPipe, ctr, rd,
+       /\ UNCHANGED <<conf, tptr, wptr, thr, wobj, queue, pending, app, hooked, hobj, stale, script, inPipe, ctr, rd,
                       delivered, accepted>>
     \* the message's timestamp was taken inside the call
     /\ Lookup(tg.d, Msg(ev.m)).v <= ev.ms
@@ -86,14 +86,14 @@ TSeeBusy(s) ==
     /\ pc[s] = "rs.locked" => tptr
     /\ pending > 0 /\ hm = s
     /\ Goto(s, "rs.unlocking")
-    /\ UNCHANGED <<lm, hm, tptr, wptr, thr, wobj, queue, pending, app, hooked, cur, todo, script, inPipe, ctr, rd,
+    /\ UNCHANGED <<lm, hm, tptr, wptr, thr, wobj, queue, pending, app, hooked, hobj, stale, cur, todo, script, inPipe, ctr, rd,
                    delivered, accepted, ghost>>
 
 TWaitUnlock(s) ==
     /\ pc[s] = "rs.unlocking"
     /\ hm' = (IF hm = s THEN NoOne ELSE hm)
     /\ Goto(s, "rs.wait.unlock")
-    /\ UNCHANGED <<conf, lm, tptr, wptr, thr, wobj, queue, pending, app, hooked, cur, todo, script, inPipe, ctr, rd,
+    /\ UNCHANGED <<conf, lm, tptr, wptr, thr, wobj, queue, pending, app, hooked, hobj, stale, cur, todo, script, inPipe, ctr, rd,
                    delivered, accepted, ghost>>
 
 \* the wait loop is left (pending = 0) and the thread is still there -> point rs.quit
@@ -104,7 +104,7 @@ TToQuit(s) ==
     /\ conf.recheck => tptr
     /\ hm = s
     /\ Goto(s, "rs.quit")
-    /\ UNCHANGED <<conf, lm, hm, tptr, wptr, thr, wobj, queue, pending, app, hooked, cur, todo, script, inPipe, ctr, rd,
+    /\ UNCHANGED <<conf, lm, hm, tptr, wptr, thr, wobj, queue, pending, app, hooked, hobj, stale, cur, todo, script, inPipe, ctr, rd,
                    delivered, accepted, ghost>>
 
 \* quit(); wait() returned -> point rs.joined: the worker's event loop has ended (RsQuit, WFinish, RsJoin)
@@ -114,7 +114,7 @@ TJoined(s) ==
     /\ thr' = "finished" /\ wobj' = "freed" /\ queue' = <<>>
     /\ ghost' = [ghost EXCEPT !.crashed = @ \/ ~tptr]
     /\ pc' = [pc EXCEPT ![W] = "gone", ![s] = "rs.joined"]
-    /\ UNCHANGED <<conf, lm, hm, tptr, wptr, pending, app, hooked, cur, todo, script, inPipe, ctr, rd, delivered, accepted>>
+    /\ UNCHANGED <<conf, lm, hm, tptr, wptr, pending, app, hooked, hobj, stale, cur, todo, script, inPipe, ctr, rd, delivered, accepted>>
 
 \* resetOwnThread / moveToOwnThread returned to the caller
 TOpEnd(s) ==
@@ -124,7 +124,7 @@ TOpEnd(s) ==
        \/ pc[s] = "rs.check" /\ pending = 0 /\ ~tptr /\ conf.recheck
     /\ hm' = (IF hm = s THEN NoOne ELSE hm)
     /\ NextOp(s) /\ Goto(s, "idle")
-    /\ UNCHANGED <<conf, lm, tptr, wptr, thr, wobj, queue, pending, app, hooked, cur, todo, inPipe, ctr, rd,
+    /\ UNCHANGED <<conf, lm, tptr, wptr, thr, wobj, queue, pending, app, hooked, hobj, stale, cur, todo, inPipe, ctr, rd,
                    delivered, accepted, ghost>>
 
 TPt ==
@@ -182,6 +182,8 @@ TApp ==
     /\ CASE ev.op = "appCreate"  -> AppCreate(ev.t)
          [] ev.op = "execQuit"   -> AppQuit(ev.t)
          [] ev.op = "appDestroy" -> AppDestroy(ev.t)
+         [] ev.op = "spin"       -> AppSpin(ev.t)
+         [] ev.op = "free"       -> Free(ev.t)
 
 AllMsgs == UNION {Set(todo[t]) : t \in Producers}
 TFinished ==
